@@ -20,6 +20,21 @@ def check(ctx):
     # ---- S1: which market-data readers are reachable
     from ..lib import private_closure
     accessors = private_closure(M, ['CSVDailyBarDataSource.get_bid', 'CSVDailyBarDataSource.get_ask'])
+    # a package-defined decorator applied to the accessors (and to nothing else) is part of them: its wrapper runs as the accessor
+    import ast as _ast
+    acc_fns = [ctx.fn(q_) for q_ in ('CSVDailyBarDataSource.get_bid', 'CSVDailyBarDataSource.get_ask')]
+    for af in acc_fns:
+        for d_ in af.node.decorator_list:
+            dn = d_.func if isinstance(d_, _ast.Call) else d_
+            if isinstance(dn, _ast.Name):
+                t_ = M.resolve_name(af.mod, dn.id)
+                if t_ is not None and hasattr(t_, 'qn') and hasattr(t_, 'node') and isinstance(t_.node, _ast.FunctionDef):
+                    users = [g_ for g_ in M.all_funcs() if g_.parent is None and any(
+                        isinstance((x_.func if isinstance(x_, _ast.Call) else x_), _ast.Name) and (x_.func if isinstance(x_, _ast.Call) else x_).id == dn.id
+                        for x_ in g_.node.decorator_list)]
+                    if all(u_.qn in accessors for u_ in users):
+                        accessors.add(t_.qn)
+                        accessors |= {g_.qn for g_ in M.all_funcs() if getattr(g_, 'parent', None) is not None and g_.parent.qn == t_.qn}
     readers = {fn.qn for fn, n in reads_of_attr(M, 'asset_bid_ask_frames')}
     for q in sorted(readers & reach):
         ctx.require(q in accessors, 'C07.S1',
